@@ -219,3 +219,62 @@ package fsm
 //@   ensures [C01.handle.book] err == nil ==> bookSame(ctx.batch.vP, ctx.batch.vV, old(ctx.batch.vP), old(ctx.batch.vV))
 //@   ensures [C01.cput.state] err == nil ==> forall k Bytes :: ctx.batch.vP[k] == (k == encK(1, bytesOf(c.Command.Kv.Key)) ? true : old(ctx.batch.vP[k]))
 //@   modifies ctx.batch, ctx.batch.vP, ctx.batch.vV
+
+// ---------------------------------------------------------------- range reads (C09)
+
+// every stored key is well formed (>= 5 bytes, version 1): established by the write handlers, which
+// only ever write enc_t(k) keys
+//@ pure func viewWF(vp map[Bytes]Bool) bool = forall k Bytes :: vp[k] ==> blen(k) >= 5 && bat(k, 0) == 1
+
+// fill functions: add one pair (or count one) to the response under construction
+//@ func fillContract
+//@   assumed
+//@   params key, value, response
+//@   requires response != nil
+//@   ensures response.Count == old(response.Count) + 1 && response.More == old(response.More)
+//@   modifies response.Kvs, response.Count
+
+//@ func sizeContract
+//@   assumed
+//@   params key, value
+//@   ensures result >= 0
+
+// the consumer of a streamed read: ghost log on the function value (number of chunks, pairs counted
+// in all chunks, whether the last chunk was flagged 'more', whether all earlier ones were, whether
+// the consumer asked to stop)
+//@ ghostfield any.nchunks Int
+//@ ghostfield any.pairs Int
+//@ ghostfield any.lastMore Bool
+//@ ghostfield any.prevMore Bool
+//@ ghostfield any.stopped Bool
+//@ func yieldContract
+//@   assumed
+//@   params r
+//@   results goon
+//@   requires r != nil
+//@   ensures self.nchunks == old(self.nchunks) + 1 && self.pairs == old(self.pairs) + r.Count && self.lastMore == r.More
+//@   ensures self.prevMore == (old(self.prevMore) && (old(self.nchunks) == 0 || old(self.lastMore)))
+//@   ensures self.stopped == (old(self.stopped) || !goon)
+//@   modifies self.nchunks, self.pairs, self.lastMore, self.prevMore, self.stopped
+
+// The lazily consumed range stream. N = number of pairs of the range in the reader's view.
+// Contract from the property: pairs delivered = min(limit, N) (all N without limit); every chunk but
+// the last is flagged 'more'; the last chunk is flagged 'more' exactly when pairs remain beyond
+// those delivered; one iterator = one point-in-time view.
+//@ func iterate$1
+//@   functype yield yieldContract
+//@   functype fill fillContract
+//@   functype sf sizeContract
+//@   requires yield != nil && *reader != nil && *opts != nil && *fill != nil && *sf != nil && *limit >= 0
+//@   requires yield.nchunks == 0 && yield.pairs == 0 && yield.prevMore && !yield.stopped
+//@   requires viewWF((*reader).vP)
+//@   ensures [C09.limit] !yield.stopped && *limit > 0 ==> yield.pairs <= *limit
+//@   ensures [C09.all]   !yield.stopped ==> yield.pairs == (*limit > 0 && *limit < cnt((*reader).vP, bytesOf((*opts).LowerBound), bytesOf((*opts).UpperBound)) ? *limit : cnt((*reader).vP, bytesOf((*opts).LowerBound), bytesOf((*opts).UpperBound)))
+//@   ensures [C09.more]  !yield.stopped ==> yield.lastMore == (yield.pairs < cnt((*reader).vP, bytesOf((*opts).LowerBound), bytesOf((*opts).UpperBound)))
+//@   ensures [C09.flags] !yield.stopped ==> yield.prevMore && yield.nchunks >= 1
+//@   modifies yield.nchunks, yield.pairs, yield.lastMore, yield.prevMore, yield.stopped
+//@   loop 0 invariant piter != nil && piter.bounded && piter.onKey && piter.pos == i && 0 <= i && i < cnt(piter.vP, piter.lo, piter.hi) && piter.cur == nth(piter.vP, piter.lo, piter.hi, i)
+//@   loop 0 invariant piter.vP == (*reader).vP && piter.lo == bytesOf((*opts).LowerBound) && piter.hi == bytesOf((*opts).UpperBound) && fresh(piter)
+//@   loop 0 invariant response != nil && fresh(response) && !response.More && response.Count >= 0
+//@   loop 0 invariant !yield.stopped && yield.pairs + response.Count == i && yield.prevMore && (yield.nchunks > 0 ==> yield.lastMore)
+//@   loop 0 invariant *limit == 0 || i <= *limit
